@@ -12,6 +12,7 @@
 3. code -> spec: every one of those executions and randomized longer walks (bigger options, more
    calls, random answer/fail/emit order) are recorded and validated by ClientBatchTrace.tla.
 """
+import concurrent.futures
 import json
 import os
 import random
@@ -22,7 +23,7 @@ import vf
 
 WITNESSES = os.path.join(vf.VERIF, "replays", "C20", "witnesses.ndjson")
 TOGGLES = ["MapReversed", "FailSpills", "DropOverflow", "MergeBytewise", "DoubleErrSends", "ScanOpenErrNoClose",
-           "KeepPartial", "ResendWrites"]
+           "KeepPartial", "ResendWrites", "DropAbandoned"]
 
 
 # ------------------------------------------------------------------------------------------ helpers
@@ -77,6 +78,10 @@ def _describe(b):
             parts.append("end(%d,%d,%s)" % (s["c"], s["s"], s["how"]))
         elif a == "Timer":
             parts.append("timer")
+        elif a == "Expire":
+            parts.append("request-timeout")
+        elif a == "RespondLate":
+            parts.append("RespondLate(%dw)" % s["s"])
     return "n=%d maxReq=%d maxBytes=%d linger=%s dead=%s: %s" % (
         cfg["n"], cfg["maxReq"], cfg["maxBytes"], cfg["linger"], cfg["dead"], " ".join(parts))
 
@@ -140,30 +145,35 @@ class Harness:
                     (started if tag == "S" else finished).add(int(i))
             inflight = sorted(started - finished)
             culprits = []
-            for i in inflight:
+
+            def alone(i, rounds=rounds):
                 crashes, head = 0, ""
-                for _ in range(2):
-                    one = os.path.join(d, "one.ndjson")
+                for a in range(2):
+                    one = os.path.join(d, "one-%d-%d.ndjson" % (rounds, i))
                     with open(one, "w") as f:
                         f.write(todo[i][1] + "\n")
-                    q = self._run([self.binp, "replay", "-in", one, "-out", os.path.join(d, "one.json"),
-                                   "-trace", os.path.join(d, "one.trace"), "-tmp", ctx.scratch], timeout=120)
+                    q = self._run([self.binp, "replay", "-in", one, "-out", one + ".json",
+                                   "-trace", one + ".trace", "-tmp", ctx.scratch], timeout=120)
                     if q.returncode != 0 and ("panic:" in q.stderr or "fatal error:" in q.stderr):
                         crashes += 1
                         head = _panic_head(q.stderr)
                     else:
                         break
-                if crashes == 2:
-                    culprits.append(i)
-                    agg["crashed"].append((todo[i][1], head))
+                return crashes, head
+            # the candidates are independent: try them side by side (a candidate costs seconds of waiting, not CPU)
+            with concurrent.futures.ThreadPoolExecutor(max_workers=8) as ex:
+                for i, (crashes, head) in zip(inflight, ex.map(alone, inflight)):
+                    if crashes == 2:
+                        culprits.append(i)
+                        agg["crashed"].append((todo[i][1], head))
             keep = [t for j, t in enumerate(todo) if j not in finished and j not in culprits]
             if not culprits and len(keep) == len(todo):
                 # nothing identified and nothing finished: avoid looping for ever
                 raise vf.Inconclusive("replay harness keeps crashing without a reproducible culprit:\n" + p.stderr[-1500:])
             agg["unreproduced_crash"] = agg.get("unreproduced_crash", 0) + (0 if culprits else 1)
             todo = keep
-            if len(agg["crashed"]) >= 10:
-                break
+            if len(agg["crashed"]) >= 3:
+                break       # a broken tree must stay fast: the rest of the chunk is not replayed
         return agg
 
     def drive(self, seed, n, label, only=None):
@@ -200,7 +210,7 @@ def _short(line):
     if a == "Issue":
         return "Issue(call %d: %s)" % (e["c"], e["t"])
     if a in ("Respond", "Fail"):
-        return "%s(shard %d/%s)" % (a, e["s"], e["k"])
+        return "%s(shard %d/%s: request puts/gets %s deletes %s delete-ranges %s)" % (a, e["s"], e["k"], e.get("p"), e.get("d"), e.get("r"))
     if a == "Break":
         return "Break(shard %d/%s: retriable error after %d response(s))" % (e["s"], e["k"], e.get("n", 0))
     if a == "SEnd":
@@ -291,22 +301,28 @@ def run(ctx):
     ctx.assumptions += [
         "one application goroutine issues the calls (the order of calls handed to a batcher is the issue order)",
         "servers answer every request of a write stream in order or break the stream; retriable failures are "
-        "codes.Unavailable after the request was received (reads: after a streamed prefix); request time-outs and "
-        "shard re-assignment are not exercised",
+        "codes.Unavailable after the request was received (reads: after a streamed prefix); request time-outs are "
+        "exercised for writes (the leader is slow, the write stream survives and the late answer arrives), real time: "
+        "the client's request timeout is 5 lingers in replays, 25-90 ms in random walks; shard re-assignment is not exercised",
         "shards hold disjoint key sets and return their records sorted (primary-key scans only)",
         "callbacks of one batch are modelled as one atomic step",
         "fake leaders are reached over unix sockets; a dead leader is an address nobody listens on",
     ]
     built = {}
     suffix = "quick" if quick else "thorough"
-    law_cfgs = ["cb-write-%s.cfg" % suffix, "cb-read-%s.cfg" % suffix, "cb-read2-%s.cfg" % suffix, "cb-stream-%s.cfg" % suffix]
+    law_cfgs = ["cb-write-%s.cfg" % suffix, "cb-read-%s.cfg" % suffix, "cb-read2-%s.cfg" % suffix, "cb-stream-%s.cfg" % suffix,
+                "cb-expire-%s.cfg" % suffix]
     if not quick:
-        law_cfgs += ["cb-write4-thorough.cfg", "cb-mixed-thorough.cfg"]
+        law_cfgs += ["cb-write4-thorough.cfg", "cb-mixed-thorough.cfg", "cb-expirerw-thorough.cfg"]
     per = max(2, ctx.cores // len(law_cfgs))
 
     # 1. the model's own laws (exhaustive), the harness build and the exports run side by side
     def law(cfg):
-        return lambda: ctx.tlc("ClientBatchMC", cfg, workers=per, label="laws-" + cfg[3:-4], heap="3g")
+        # quick: the three big configurations bound the phase - they get the cores the small ones do not need
+        wk = per
+        if quick:
+            wk = 2 if ("stream" in cfg or "expire" in cfg) else max(2, (ctx.cores - 4) // 3)
+        return lambda: ctx.tlc("ClientBatchMC", cfg, workers=wk, label="laws-" + cfg[3:-4], heap="3g")
 
     def build():
         built["bin"] = ctx.go_build("clientbatch")
@@ -318,7 +334,7 @@ def run(ctx):
 
     # 2. spec -> code
     step_cfgs = ["cb-replay-write-steps.cfg", "cb-replay-read-steps.cfg", "cb-replay-stream-steps.cfg",
-                 "cb-replay-retry-steps.cfg"]
+                 "cb-replay-retry-steps.cfg", "cb-replay-expire-steps.cfg"]
     nruns = 300 if quick else 6000
 
     def steps(cfg):
@@ -335,8 +351,10 @@ def run(ctx):
     cap = 2500 if quick else 14000          # per family
     nfam = len(step_cfgs)
     chosen = []
-    for fam in exported[:nfam]:
-        chosen += fam if len(fam) <= cap else rnd.sample(fam, cap)
+    for cfgname, fam in zip(step_cfgs, exported[:nfam]):
+        # every request-timeout step of the expire family costs a real request timeout (0.6 s): a smaller sample
+        fcap = cap * 2 // 5 if "expire" in cfgname else cap
+        chosen += fam if len(fam) <= fcap else rnd.sample(fam, fcap)
     chosen += exported[nfam]
     witnesses = [l for l in open(WITNESSES).read().splitlines() if l.strip()] if os.path.exists(WITNESSES) else []
     ctx.log("exported %d transition behaviours + %d runs; replaying %d of them + %d witness executions"
@@ -437,7 +455,8 @@ def run(ctx):
     if not quick:
         def mutant(tog):
             fam = {"MapReversed": "write", "FailSpills": "write", "DropOverflow": "write", "MergeBytewise": "stream",
-                   "DoubleErrSends": "read", "ScanOpenErrNoClose": "stream", "KeepPartial": "read2", "ResendWrites": "write"}[tog]
+                   "DoubleErrSends": "read", "ScanOpenErrNoClose": "stream", "KeepPartial": "read2", "ResendWrites": "write",
+                   "DropAbandoned": "expire"}[tog]
             txt = open(os.path.join(vf.SPEC, "cfg", "cb-%s-quick.cfg" % fam)).read().replace("%s = FALSE" % tog, "%s = TRUE" % tog)
             p = os.path.join(ctx.sub("mut"), "cb-mutant-%s.cfg" % tog)
             open(p, "w").write(txt)
